@@ -34,6 +34,7 @@ type C17Conc struct {
 	HoldUs    int   `json:"hold_us"`
 	Ops       int   `json:"ops_per_worker"`
 	UDP       bool  `json:"udp"`
+	Burst     bool  `json:"burst"` // all workers open their tunnel for one (IP, key) at the same instant, round by round
 	Seed      int64 `json:"seed"`
 }
 
@@ -42,7 +43,7 @@ func genC17Conc(t *rapid.T) C17Conc {
 		Workers: rapid.IntRange(2, 12).Draw(t, "workers"), Scrapers: rapid.IntRange(1, 4).Draw(t, "scrapers"),
 		Pool: rapid.SampledFrom([]int{0, 0, 1, 2, 8}).Draw(t, "pool"), Keys: rapid.IntRange(1, 3).Draw(t, "keys"),
 		LatencyUs: rapid.SampledFrom([]int{0, 1, 10, 50}).Draw(t, "latency"), HoldUs: rapid.SampledFrom([]int{0, 0, 5, 100}).Draw(t, "hold"),
-		Ops: rapid.IntRange(50, 400).Draw(t, "ops"), UDP: rapid.Bool().Draw(t, "udp"), Seed: rapid.Int64Range(1, 1<<30).Draw(t, "seed"),
+		Ops: rapid.IntRange(50, 400).Draw(t, "ops"), UDP: rapid.Bool().Draw(t, "udp"), Burst: rapid.IntRange(0, 2).Draw(t, "burst") == 0, Seed: rapid.Int64Range(1, 1<<30).Draw(t, "seed"),
 	}
 }
 
@@ -132,19 +133,31 @@ func runC17Conc(c C17Conc, info *kit.Info) *kit.Finding {
 			}
 		}()
 	}
+	barrier := newSpinBarrier(c.Workers)
+	if c.Burst {
+		c.Ops = min(c.Ops, 150)
+	}
 	for w := 0; w < c.Workers; w++ {
 		wg.Add(1)
 		go func(w int) {
 			defer wg.Done()
+			defer barrier.leave()
 			for i := 0; i < c.Ops && fnd.Load() == nil; i++ {
 				var n int64
-				if c.Pool == 0 {
+				if c.Burst {
+					// everybody is the same client in this round, and starts together
+					n = int64(i)
+					barrier.wait()
+				} else if c.Pool == 0 {
 					n = ipCounter.Add(1)
 				} else {
 					n = (int64(w)*31 + int64(i)*17 + c.Seed) % int64(c.Pool)
 				}
 				ip := net.IPv4(198, byte(18+n>>16&1), byte(n>>8), byte(n))
 				key := int((int64(i) + c.Seed) % int64(c.Keys))
+				if c.Burst {
+					key = i % c.Keys
+				}
 				k := ck{ip.String(), key}
 				var t0, t1, t2, t3 time.Time
 				if c.UDP && i%2 == 0 {
@@ -230,7 +243,7 @@ func runC17Conc(c C17Conc, info *kit.Info) *kit.Finding {
 	}
 	info.NonTrivial = true
 	info.Steps = c.Workers * c.Ops
-	info.Class(fmt.Sprintf("pool:%d", c.Pool), fmt.Sprintf("udp:%v", c.UDP))
+	info.Class(fmt.Sprintf("pool:%d", c.Pool), fmt.Sprintf("udp:%v", c.UDP), fmt.Sprintf("burst:%v", c.Burst))
 	return nil
 }
 
@@ -246,4 +259,37 @@ func spin(us int) {
 func TestC17_Concurrent(t *testing.T) {
 	p := kit.Prop[C17Conc]{ID: "C17", Name: "Concurrent", Quick: 160, Thorough: 20000, Gen: genC17Conc, Run: runC17Conc, Journal: true}
 	p.Execute(t)
+}
+
+// spinBarrier lets a set of goroutines start a round at (nearly) the same instant; a goroutine that
+// stops early leaves, so the others are never stuck.
+type spinBarrier struct {
+	n       atomic.Int32
+	arrived atomic.Int32
+	gen     atomic.Int32
+}
+
+func newSpinBarrier(n int) *spinBarrier {
+	b := &spinBarrier{}
+	b.n.Store(int32(n))
+	return b
+}
+
+func (b *spinBarrier) wait() {
+	g := b.gen.Load()
+	if b.arrived.Add(1) >= b.n.Load() {
+		b.arrived.Store(0)
+		b.gen.Add(1)
+		return
+	}
+	for t := time.Now(); b.gen.Load() == g && time.Since(t) < 200*time.Millisecond; {
+	}
+}
+
+func (b *spinBarrier) leave() {
+	b.n.Add(-1)
+	if b.arrived.Load() >= b.n.Load() && b.n.Load() > 0 {
+		b.arrived.Store(0)
+		b.gen.Add(1)
+	}
 }
